@@ -20,7 +20,7 @@ RULE = (
     "overwritten before the wake, a wake while another node has parked commands, or re-parking after a flush; distinct = distinct case JSON."
 )
 ASSUMPTIONS = [
-    "only set commands are sent (other commands: C12); req messages and reboot flags are not generated here (their replies are C06's subject)",
+    "only set commands are sent (other commands: C12); value requests from nodes are part of the traffic (their reply is a set line too)",
 ]
 DELETABLE = ("ops",)
 ASPECTS = frozenset({"writes"})
@@ -33,9 +33,10 @@ def budgets(tier: str) -> dict:
 
 
 def _ops(version: str):
-    node = st.sampled_from((1, 1, 2, 2, 3))
-    child = st.sampled_from((0, 1))
-    vtype = st.sampled_from((0, 2))
+    # ids chosen so that naive string keys collide: (1,12,3), (11,2,3) and (1,1,23) all concatenate to "1123"
+    node = st.sampled_from((1, 1, 11, 11, 2))
+    child = st.sampled_from((1, 2, 12))
+    vtype = st.sampled_from((3, 23))
     value = st.sampled_from(("0", "1", "2", "3", "x;y", ""))
     send = st.builds(
         lambda n, c, t, v, a, b: ["send", [n, c, 1, a, t, v], b],
@@ -47,6 +48,8 @@ def _ops(version: str):
     other = st.one_of(
         st.builds(lambda n, c, t, v: ["rx", f"{n};{c};1;0;{t};{v}\n"], node, child, vtype, value),
         st.builds(lambda n: ["rx", f"{n};255;3;0;0;77\n"], node),
+        st.builds(lambda n, c, t: ["rx", f"{n};{c};2;0;{t};\n"], node, child, vtype),
+        st.builds(lambda n, c, t: ["rx", f"{n};{c};2;0;{t};\n"], node, child, vtype),
         st.builds(lambda n: ["rx", f"{n};255;3;0;18;\n"], node),
         st.builds(lambda n: ["rx", f"{n};255;3;0;33;\n"], node),
         st.builds(lambda n: ["rx", f"{n};255;0;0;17;2.0\n"], node),
@@ -60,7 +63,7 @@ def _ops(version: str):
     def episodes(draw):
         ops: list = []
         for _ in range(draw(st.integers(1, 5))):
-            target = draw(st.sampled_from((1, 2)))
+            target = draw(st.sampled_from((1, 11)))
             for _ in range(draw(st.integers(1, 4))):
                 op = draw(send)
                 if draw(st.integers(0, 3)):
@@ -82,10 +85,10 @@ def _ops(version: str):
 @st.composite
 def _registry(draw) -> dict:
     reg: dict = {}
-    for node in draw(st.sampled_from(((1, 2), (1, 2, 3), (1,), (2, 3), (1, 2)))):
+    for node in draw(st.sampled_from(((1, 11), (1, 11, 2), (1,), (11, 2), (1, 11)))):
         children = {
-            str(c): {"child_id": c, "child_type": 3, "description": "", "values": draw(st.sampled_from(({}, {}, {"0": "1", "2": "0"}, {"0": "0"})))}
-            for c in draw(st.sampled_from(((0, 1), (0, 1), (0,), ())))
+            str(c): {"child_id": c, "child_type": 3, "description": "", "values": draw(st.sampled_from(({}, {}, {"3": "1", "23": "0"}, {"3": "0"})))}
+            for c in draw(st.sampled_from(((1, 2, 12), (1, 12), (1,), ())))
         }
         reg[str(node)] = {
             "node_id": node, "node_type": 17, "protocol_version": "2.0", "sketch_name": "", "sketch_version": "",
@@ -97,8 +100,19 @@ def _registry(draw) -> dict:
 def strategy(tier: str):
     versions = st.sampled_from(("2.0", "2.1", "2.2", "2.0", "2.1", "2.2", "2.2", "1.4", "1.5"))
     return versions.flatmap(
-        lambda v: st.fixed_dictionaries({"version": st.just(v), "registry": _registry(), "ops": _ops(v), "listen_mode": st.sampled_from(("fresh", "persistent"))})
+        lambda v: st.fixed_dictionaries({"version": st.just(v), "registry": _registry(), "ops": _ops(v), "listen_mode": st.sampled_from(("fresh", "persistent")), "debug_log": st.sampled_from((False, False, True))})
     )
+
+
+def enumerate_cases(tier: str):
+    # many parked commands for one node: all of them are owed at its next wake, however many there are
+    for version in ("2.0", "2.2"):
+        wake = "1;255;3;0;32;500\n" if version == "2.2" else "1;255;3;0;22;7\n"
+        for count in (5, 17, 24, 40):
+            registry = {"1": {"node_id": 1, "node_type": 17, "protocol_version": "2.0", "sketch_name": "", "sketch_version": "", "battery_level": 0, "heartbeat": 0,
+                              "sleeping": True, "children": {}}}
+            ops = [["send", [1, k // 4, 1, 0, k % 4, f"v{k}"], None] for k in range(count)] + [["rx", wake], ["rx", wake]]
+            yield {"version": version, "registry": registry, "ops": ops, "listen_mode": "fresh"}
 
 
 def run_case(case: dict) -> Outcome:
